@@ -33,6 +33,26 @@ type ctx struct {
 	// leafOnly: no descendants may be built on the candidate (e.g. far-future
 	// timestamp).
 	leafOnly bool
+	// preferAbove: when > 0, entries that pick a coin prefer coins created
+	// above this height (i.e. on the candidate's own branch).
+	preferAbove int32
+}
+
+// pickCoin chooses a spendable outpoint, preferring coins created above
+// c.preferAbove when asked to.
+func (c *ctx) pickCoin(sp []wire.OutPoint, label string) wire.OutPoint {
+	if c.preferAbove > 0 {
+		var own []wire.OutPoint
+		for _, op := range sp {
+			if c.parent.Utxo[op].Height > c.preferAbove {
+				own = append(own, op)
+			}
+		}
+		if len(own) > 0 && rapid.IntRange(0, 4).Draw(c.t, label+"Own") > 0 {
+			sp = own
+		}
+	}
+	return sp[rapid.IntRange(0, len(sp)-1).Draw(c.t, label)]
 }
 
 type entry struct {
@@ -425,7 +445,7 @@ func catalogue() []entry {
 			if len(sp) == 0 {
 				return nil
 			}
-			op := sp[rapid.IntRange(0, len(sp)-1).Draw(c.t, "csvCoin")]
+			op := c.pickCoin(sp, "csvCoin")
 			age := uint32(c.height() - c.parent.Utxo[op].Height) // blocks since the coin was created
 			seq, ver := age, int32(2)
 			label, rule := ce.Valid, ""
@@ -452,7 +472,7 @@ func catalogue() []entry {
 			if len(sp) == 0 {
 				return nil
 			}
-			op := sp[rapid.IntRange(0, len(sp)-1).Draw(c.t, "csvCoin")]
+			op := c.pickCoin(sp, "csvCoin")
 			coinNode := c.parent.Ancestor(c.parent.Utxo[op].Height)
 			if coinNode == nil || coinNode.Parent == nil {
 				return nil
